@@ -393,3 +393,61 @@ Proof.
       * destruct fs; [right; destruct (it_incomparable ia); [reflexivity | discriminate]|]. left. intros X. subst a. apply fields_from_nil in Hb. discriminate.
       * rewrite Egen. cbn. rewrite orb_false_r. exact U.
 Qed.
+
+(* ---- each requested trait exactly once: no (trait, crate path) pair occurs twice in the whole impl list ---- *)
+Lemma existsb_false_iff {A} (f : A -> bool) l : existsb f l = false <-> forall x, In x l -> f x = false.
+Proof.
+  induction l as [|a l IH]; cbn; [split; [intros _ x []|reflexivity]|].
+  rewrite orb_false_iff, IH. split.
+  - intros [Ha Hl] x [<-|Hx]; auto.
+  - intros H. split; [apply H; left; reflexivity|]. intros x Hx. apply H. right. exact Hx.
+Qed.
+
+Lemma list_eqb_string_sym (l1 : list string) : forall l2, list_eqb String.eqb l1 l2 = list_eqb String.eqb l2 l1.
+Proof.
+  induction l1 as [|x xs IH]; intros [|y ys]; cbn; try reflexivity. rewrite IH, String.eqb_sym. reflexivity.
+Qed.
+
+Lemma path_eqb_sym p q : path_eqb p q = path_eqb q p.
+Proof.
+  unfold path_eqb. rewrite list_eqb_string_sym. f_equal. destruct (p_lead p), (p_lead q); reflexivity.
+Qed.
+
+Lemma derive_trait_eqb_sym a b : derive_trait_eqb a b = derive_trait_eqb b a.
+Proof.
+  unfold derive_trait_eqb. f_equal.
+  - destruct (dt_trait a), (dt_trait b); reflexivity.
+  - destruct (dt_crate a) as [p|], (dt_crate b) as [q|]; cbn; try reflexivity. apply path_eqb_sym.
+Qed.
+
+Lemma has_dup_app a b :
+  has_dup (a ++ b) = false <->
+  has_dup a = false /\ has_dup b = false /\ forall x y, In x a -> In y b -> derive_trait_eqb x y = false.
+Proof.
+  induction a as [|x a IH]; cbn [app has_dup].
+  - split; [intros H; repeat split; auto; intros x y []|intros [_ [H _]]; exact H].
+  - rewrite !orb_false_iff, existsb_app, orb_false_iff, IH, !existsb_false_iff. split.
+    + intros [[Ha Hb] [Da [Db C]]]. repeat split; auto.
+      intros x' y [<-|Hx] Hy; [apply Hb; exact Hy | apply C; assumption].
+    + intros [[Ha Da] [Db C]]. repeat split; auto.
+      * intros y Hy. apply C; [left; reflexivity | exact Hy].
+      * intros x' y Hx Hy. apply C; [right; exact Hx | exact Hy].
+Qed.
+
+Lemma no_dup_overall dws :
+  (forall w, In w dws -> has_dup (dw_traits w) = false) -> has_cross_dup dws = false ->
+  has_dup (flat_map dw_traits dws) = false.
+Proof.
+  induction dws as [|d r IH]; cbn [flat_map has_cross_dup]; intros Hw Hc; [reflexivity|].
+  apply orb_false_iff in Hc. destruct Hc as [Hc1 Hc2]. apply has_dup_app. split; [apply Hw; left; reflexivity|].
+  split; [apply IH; [intros w Hin; apply Hw; right; exact Hin | exact Hc2]|].
+  intros x y Hx Hy. apply in_flat_map in Hy. destruct Hy as [o [Ho Hy]].
+  rewrite existsb_false_iff in Hc1. specialize (Hc1 o Ho). rewrite existsb_false_iff in Hc1. specialize (Hc1 y Hy).
+  rewrite existsb_false_iff in Hc1. rewrite derive_trait_eqb_sym. apply Hc1. exact Hx.
+Qed.
+
+Theorem accepted_each_trait_once c r i :
+  from_input c r = Ok i -> has_dup (flat_map dw_traits (in_dws i)) = false.
+Proof.
+  intros H. destruct (accepted_invariants c r i H) as [_ [A [B _]]]. apply no_dup_overall; assumption.
+Qed.
